@@ -76,7 +76,13 @@ def run_property(pid, tier):
 
 
 def relevant(ob, pid):
-    return pid in ob["props"] or "*" in ob["props"]
+    if pid in ob["props"]:
+        return True
+    if "*" in ob["props"]:
+        # an auxiliary (untagged) invariant conjunct that is not inductive is dropped by Houdini; it is not a
+        # violation of any property by itself -- a property fails only if one of ITS obligations fails afterwards
+        return not (ob["name"].startswith("inv[") and ob.get("houdini_iteration") is not None)
+    return False
 
 
 def witness_search(pid, spec, budget):
@@ -106,6 +112,41 @@ def replay_witness(w, spec):
     out = subprocess.run([VENV_PY, os.path.join(ROOT, "replay", script), "replay", json.dumps(w)],
                          capture_output=True, text=True, env=env, cwd=REPO, timeout=600)
     return out.returncode, out.stdout + out.stderr
+
+
+def run_selftest(pid):
+    """Apply each committed seeded change for this property to a scratch copy of the tree and require the quick
+    check to report a violation on it."""
+    import shutil
+    import tempfile
+    sd = os.path.join(ROOT, "seeded")
+    seeds = sorted(x for x in os.listdir(sd) if x.startswith(pid + "-")) if os.path.isdir(sd) else []
+    res = {"total": 0, "killed": 0, "survivors": [], "details": []}
+    for s_ in seeds:
+        d = tempfile.mkdtemp(prefix="selftest-%s-" % s_)
+        try:
+            subprocess.run("git -C %s archive HEAD | tar -x -C %s" % (REPO, d), shell=True, check=True)
+            pr = subprocess.run(["git", "apply", os.path.join(sd, s_, "patch.diff")], cwd=d, capture_output=True, text=True)
+            if pr.returncode != 0:
+                subprocess.run(["git", "init", "-q", "."], cwd=d)
+                pr = subprocess.run(["git", "apply", os.path.join(sd, s_, "patch.diff")], cwd=d, capture_output=True, text=True)
+            if pr.returncode != 0:
+                res["details"].append({"seed": s_, "result": "patch does not apply to the current tree"})
+                continue
+            env = dict(os.environ)
+            env.update({"VERIF_REPO": d, "VERIF_OUT_DIR": os.path.join(d, "_out"), "VERIF_TIER": "quick"})
+            out = subprocess.run([os.path.join(ROOT, "check"), pid, "--tier", "quick"], capture_output=True, text=True, env=env,
+                                 timeout=3000)
+            res["total"] += 1
+            hit = out.returncode == 1 and "VIOLATION property=%s" % pid in out.stdout
+            res["killed"] += 1 if hit else 0
+            if not hit:
+                res["survivors"].append(s_)
+            res["details"].append({"seed": s_, "exit": out.returncode,
+                                   "violation_lines": [l for l in out.stdout.splitlines() if l.startswith("VIOLATION")][:3]})
+        finally:
+            shutil.rmtree(d, ignore_errors=True)
+    return res
 
 
 def load_known():
@@ -212,6 +253,35 @@ def main():
         viol_lines.append(line)
         reported += 1
 
+    # ---- translation validation of the engine (CPython cross-check), every run
+    xc = {"skipped": "verification did not complete"}
+    if not errors:
+        try:
+            from pyvc import crosscheck
+            nq, npn = (40, 25) if tier == "quick" else (1500, 400)
+            a = crosscheck.run(REPO, seed, nq)
+            b = crosscheck.run_pinned(REPO, seed, npn)
+            xc = {"concrete_mode": a, "pinned_symbolic_mode": b}
+        except Exception as e:  # noqa
+            xc = {"error": "%s: %s" % (type(e).__name__, e)}
+    xc_bad = 0
+    for k_ in ("concrete_mode", "pinned_symbolic_mode"):
+        if isinstance(xc.get(k_), dict):
+            xc_bad += xc[k_].get("n_disagreements", 0) + (1 if xc[k_].get("error") else 0)
+    if xc.get("error"):
+        xc_bad += 1
+    # ---- thorough only: spec-sanity sweep with the executable oracle (bounded, labelled) and seeded self-test
+    bounded = []
+    selftest = None
+    if tier == "thorough" and not errors and not by_name:
+        w_, ev_, _ = witness_search(pid, spec, 300)
+        bounded.append({"tool": "replay/%s_oracle.py (statement-level oracle on the real API)" % spec.get("witness"),
+                        "bound": "exhaustive-in-the-small sweep, 300 s budget", "evaluations": ev_,
+                        "counterexample": w_, "role": "sanity of the spec reading; NOT counted as proved"})
+        if w_ is not None:
+            errors.append({"unit": "oracle", "error": "spec-sanity oracle found a failing input although every obligation is "
+                           "discharged: contract too weak or oracle wrong: %s" % json.dumps(w_)[:400]})
+        selftest = run_selftest(pid)
     # evidence
     units_ev = []
     for r in records:
@@ -264,6 +334,9 @@ def main():
             "contracts_assumed_at_call_sites": contracts_used,
             "library_models_used": lib_used,
             "second_solver_agreement": second_agree,
+            "cpython_crosscheck": xc,
+            "bounded_standins": bounded,
+            "seeded_selftest": selftest,
             "samples": samples,
             "exhaustive": False,
             "rule": "one obligation per contract clause per feasible path of each function under contract; "
@@ -300,6 +373,12 @@ def main():
     if vac:
         for v in vac:
             print("VACUITY: " + v)
+        return 3
+    if xc_bad:
+        print("CHECKER-ERROR: engine and CPython disagree on %d cross-check case(s): %s" % (xc_bad, json.dumps(xc)[:600]))
+        return 3
+    if selftest and selftest["killed"] < selftest["total"]:
+        print("CHECKER-ERROR: seeded change(s) not detected by this check: %s" % selftest["survivors"])
         return 3
     if second_agree and second_agree["disagree"]:
         print("CHECKER-ERROR: second solver disagrees on %d obligation(s)" % second_agree["disagree"])
